@@ -15,6 +15,7 @@ class Diag:
         self.level, self.message, self.spans, self.rendered = level, message, spans, rendered
         self.obligation = None   # label or safety id
         self.kind = None         # 'label' | 'safety' | 'aux' | 'unsupported' | 'rlimit'
+        self.item = None
 
 
 UNSUPPORTED_PAT = re.compile(
@@ -154,6 +155,7 @@ def _attribute(d, lines, gen_file):
             o = origin_of(sp)
             if o is not None:
                 d.obligation = _describe(o)
+                d.item = getattr(o, "item", None)     # the extracted item the rejected text belongs to, if any
                 return
         d.obligation = "?"
         return
